@@ -125,8 +125,14 @@ def dedupAux (seen : List String) : List Host → List Host
 /-- `NewHostSet` -/
 def dedup (l : List Host) : List Host := dedupAux [] l
 
-/-- `sort.Sort(types.SortedHosts(hosts))` — ascending by address string. -/
-def sortByAddr (l : List Host) : List Host := l.mergeSort (fun a b => decide (a.addr ≤ b.addr))
+/-- insertion into a list ascending by address string -/
+def insertByAddr (h : Host) : List Host → List Host
+  | [] => [h]
+  | x :: t => if h.addr ≤ x.addr then h :: x :: t else x :: insertByAddr h t
+
+/-- `sort.Sort(types.SortedHosts(hosts))` — ascending by address string (Go's byte-wise string order; the sort is modelled
+by its specification: on address-distinct input the ascending permutation is unique). -/
+def sortByAddr (l : List Host) : List Host := l.foldr insertByAddr []
 
 /-- one iteration of `RemoveClusterHosts`' loop: `i := sort.Search(n, sorted[i].addr >= addr)`; delete `sorted[i]` when its
 address equals `addr`. `sort.Search` is modelled by its specification (smallest index satisfying the predicate). -/
@@ -239,6 +245,12 @@ def removeCluster (s : State) (name : String) : State :=
     { s with clusters := s.clusters.del name,
              cstore := if Gen.Updates.removePrimaryCluster_removesClusterConfig then s.cstore.del name else s.cstore }
 
+/-- `InheritClusterHostsHandler`: the new cluster takes over the old cluster's host set; a new cluster starts empty. -/
+def inheritHosts (old : Option LiveCluster) : List Host :=
+  match old with
+  | some oc => oc.hosts
+  | none => []
+
 /-! ### xDS -/
 
 /-- one `ClusterLoadAssignment` of `ConvertUpdateEndpoints`, following the regenerated shape of the function: host-set
@@ -301,7 +313,7 @@ def step (o : Oracle) (s : State) : Op → State × Bool
           (recordRouter Gen.Updates.removeAllRoutes_recordsRouter { s with wrappers := s.wrappers.set rname ⟨some t', cfg'⟩ } cfg', true)
   | .addOrUpdateCluster name tag cfgHosts =>
     -- InheritClusterHostsHandler: keep the old cluster's host set; a new cluster starts empty (cluster.Hosts is not read)
-    updateCluster s name tag cfgHosts (fun old => match old with | some oc => oc.hosts | none => [])
+    updateCluster s name tag cfgHosts inheritHosts
   | .addOrUpdateClusterAndHost name tag cfgHosts hosts =>
     updateCluster s name tag cfgHosts (fun _ => replaceHosts hosts [])
   | .addClusterNil _ => (s, false)
